@@ -91,6 +91,9 @@ func freshOut(p *ProvDesc, oc, k, j, pos int) Val {
 	case cDebug:
 		return Val{cDebug, 0}
 	}
+	if (oc == cI0 || oc == cI1) && (p.Idx+k)%4 == 3 {
+		return Val{oc, 0} // now and then a nil interface value (a reflective body hands it over as the invalid reflect.Value)
+	}
 	return Val{dynCode(oc), freshTag(p.Idx, k, j, pos)}
 }
 
@@ -106,7 +109,15 @@ func (r *caseRun) injBody(p *ProvDesc) func([]reflect.Value) []reflect.Value {
 			outs[j] = freshOut(p, oc, k, 0, j)
 		}
 		r.logf("t call %d %s -> %s", p.Idx, fmtVals(args), fmtVals(outs))
-		return mkValues(p.Out, outs)
+		vals := mkValues(p.Out, outs)
+		if p.Refl {
+			for j, oc := range p.Out {
+				if (oc == cI0 || oc == cI1) && outs[j].Tag == 0 && outs[j].Ty == oc {
+					vals[j] = reflect.Value{} // what reflect.ValueOf(nilInterface) gives
+				}
+			}
+		}
+		return vals
 	}
 }
 
